@@ -11,7 +11,7 @@ Definition M (i k v : N) : op := Measure (N.to_nat i) k (zz v).
 Definition Rg (c : N) (insts : list N) : op := Register c (map N.to_nat insts).
 Definition Un (c : N) : op := Unregister c.
 Definition A (c i k v : N) : attempt := (c, N.to_nat i, k, zz v).
-Definition Co (s : list attempt) (f : list N) : op := Collect s f.
+Definition Co (w : N) (s : list attempt) (f : list N) : op := Collect w s f.
 Definition P (k : N) (v : list N) : skey * svec := (k, zs v).
 (** one stream in one collection: start rank, time rank (0 0 when not reported), points *)
 Definition O (s t : N) (p : points) : sobs := (s, t, p).
@@ -21,11 +21,11 @@ Definition KE (u : N) : ikind := KExpo (Z.of_N u).
 Definition B (i c : N) : Z * Z := (zz i, Z.of_N c).
 Definition EP (k sc sum cnt zero : N) (pos neg : ebuckets) : epoint :=
   {| e_key := k; e_scale := zz sc; e_sum := zz sum; e_count := Z.of_N cnt; e_zero := Z.of_N zero; e_pos := pos; e_neg := neg |}.
-Definition MC (k c : N) : skey * Z := (k, Z.of_N c).
+Definition MC (k c f : N) : skey * Z * N := (k, Z.of_N c, f).
 
 Inductive case :=
-| CExpo (meas : list (list (skey * Z))) (obs : list (list epoint * list epoint))
-| CHist (kinds : list ikind) (h : list op) (obs : list (list sobs * list sobs)) (errs : list (bool * bool)).
+| CExpo (maxsize : N) (meas : list (list (skey * Z * N))) (obs : list (list epoint * list epoint))
+| CHist (kinds : list ikind) (h : list op) (obs : list (list sobs * list sobs)) (errs : list bool * list bool).
 
 Definition pts_eqb (a b : list sobs) : bool :=
   list_eqb (fun x y => amap_eqb (s_points x) (s_points y)) a b.
@@ -42,13 +42,13 @@ Definition flag (b : bool) (code : N) : list N := if b then [] else [code].
 
 Definition check_case (c : case) : list N :=
   match c with
-  | CExpo meas obs => flag (expo_ok meas obs) V_SPECFAIL
+  | CExpo maxsize meas obs => flag (expo_ok maxsize meas obs) V_SPECFAIL
   | CHist kinds h obs errs =>
       let m := model kinds 0 (fun n => N.of_nat (S n)) h in
       flag (traces_eqb m obs) V_MISMATCH ++
-      (* both readers run the same callbacks: both report an error exactly in the cycles where a registered callback failed *)
+      (* each reader's Collect reports an error exactly in its cycles in which a registered callback failed *)
       flag (all_streams_ok kinds h obs &&
-            list_eqb (fun a b => Bool.eqb (fst a) (fst b) && Bool.eqb (snd a) (snd b)) errs (map (fun e => (e, e)) (errs_of h []))) V_SPECFAIL ++
+            list_eqb Bool.eqb (fst errs) (errs_of true h []) && list_eqb Bool.eqb (snd errs) (errs_of false h [])) V_SPECFAIL ++
       flag (all_streams_ok kinds h m) V_MODELSPEC
   end.
 
